@@ -720,6 +720,24 @@ def must_pass_in_loop(G: "Guards", valuation: Dict[str, bool], loop: ast.AST, ta
     return True
 
 
+def leaves_loop_early(G: "Guards", valuation: Dict[str, bool], loop: ast.AST) -> bool:
+    """under the valuation, can one iteration of `loop` end the loop (break / return) instead of going on with the next element?
+    (raising is not counted)"""
+    g = G.g
+    head = g.node_of(loop)
+    inside = set()
+    for x in ast.walk(loop):
+        if isinstance(x, (ast.stmt, ast.ExceptHandler)) and x is not loop:
+            n = g.node_of(x)
+            if n is not None:
+                inside.add(n)
+    for s_ in [m for m, l in g.succ[head] if l == "iter"]:
+        seen = G.reach(valuation, avoid={head}, start=s_)
+        if any(n not in inside and n != g.raise_ for n in seen):
+            return True
+    return False
+
+
 def unthreaded_options(repo: Repo, f: FuncInfo, pname: str):
     """calls in f (a function that has the parameter `pname`) of repository functions that also have a parameter `pname` but are not
     handed f's own value: the callee then falls back to its default.  Yields (call, callee, what was passed)."""
